@@ -19,10 +19,11 @@
 #define EV 3
 
 static Trace g_tr;
+static void self_detach_hook();
 struct Cb {
 	uint32_t slot;
 	explicit Cb(uint32_t s) : slot(s) {}
-	void operator()(uint32_t a) const { g_tr.add(slot, a, 0); }
+	void operator()(uint32_t a) const { g_tr.add(slot, a, 0); if(slot == 999u) self_detach_hook(); }
 };
 #ifdef EQUIV
 // a Map policy whose key equivalence is coarser than operator== of the Event type (a case-insensitive comparator, say): events 2 and 3 are
@@ -116,6 +117,9 @@ static void r_retarget(int r, int t) {
 	g->r[r]->setDispatcher(*g->t[t]);
 #endif
 }
+
+static SR * g_sd_r = nullptr; static Handle g_sd_h; static bool g_sd_done = true, g_sd_direct = false, g_sd_through = false;
+static void self_detach_hook() { if(g_sd_done) return; g_sd_done = true; g_sd_direct = t_remove(0, g_sd_h); g_sd_through = r_remove(0, g_sd_h); }
 
 static void observe()
 {
@@ -238,6 +242,18 @@ extern "C" void harness()
 	observe();
 	for(int s = 0; s < m.nslots; s++) vf_assert(! m.attached[s] || m.resp[s] == -1, 112);
 	for(int s = 0; s < MAXS; s++) g->hs[s] = Handle();
+	{	// a listener added through a remover detaches itself DIRECTLY on the target from inside its own invocation (its node is still alive), then
+		// asks the remover to remove it: the remover reports that nothing was attached, and forgets it
+		g->r[0] = g_sd_r = new SR(*g->t[0]);
+		g_sd_h = r_add(0, 0, 999, Handle());      // remover g->r[0] slot is free here (all removers were destroyed); use it as the holder
+		g_sd_done = false;
+		t_invoke(0, 7u);
+		vf_assert(g_sd_done && g_sd_direct && ! g_sd_through, 113);
+		g_tr.clear(); t_invoke(0, 8u);
+		for(int i = 0; i < g_tr.n; i++) vf_assert(g_tr.e[i].id != 999u, 114);
+		g_sd_h = Handle();
+		delete g_sd_r; g_sd_r = nullptr; g->r[0] = nullptr;
+	}
 	delete g->t[0]; delete g->t[1];
 	delete g; g = nullptr;
 	vf_end();
